@@ -3,8 +3,10 @@ use std::num::NonZeroU8;
 use crate::{Error, KeyName};
 
 pub fn validate<K: KeyName + ?Sized>(s: &str) -> Result<NonZeroU8, Error> {
-    let colon_idx =
-        NonZeroU8::new(s.find(':').ok_or(Error::MissingColon)? as u8).ok_or(Error::MissingColon)?;
+    let colon_idx = s.find(':').ok_or(Error::MissingColon)?;
+    // The index of the colon is stored in a `u8`, so the algorithm can't be longer than that.
+    let colon_idx = u8::try_from(colon_idx).map_err(|_| Error::MaximumLengthExceeded)?;
+    let colon_idx = NonZeroU8::new(colon_idx).ok_or(Error::MissingColon)?;
 
     K::validate(&s[colon_idx.get() as usize + 1..])?;
 
